@@ -199,11 +199,11 @@ def canonical(v, prop=None):
         return None
     if isinstance(v, (bool, int, float, decimal.Decimal)) and not isinstance(v, enum.Enum):
         return _num(v)
-    if isinstance(v, enum.Enum):
+    if isinstance(v, enum.Enum) and not isinstance(v, str):
         val = v.value
         return ['e', type(v).__name__, val.text if isinstance(val, etree.QName) else str(val)]
     if isinstance(v, str):
-        return v
+        return str(v.value) if isinstance(v, enum.Enum) else v     # a StringEnum member == its string value
     if isinstance(v, etree.QName):
         return ['q', v.text]
     if is_value_object(v):
